@@ -347,3 +347,43 @@ func verifSelfRaceAfterUnlock() {
 	}()
 	wg.Wait()
 }
+
+// verifSelfRecursiveRLock: sync.RWMutex prefers writers - a goroutine that read-locks a mutex it
+// already holds for reading deadlocks when a writer asked for the lock in between.
+func verifSelfRecursiveRLock() {
+	var mu sync.RWMutex
+	done := make(chan struct{})
+	go func() {
+		mu.Lock()
+		mu.Unlock()
+		close(done)
+	}()
+	mu.RLock()
+	verifYield()
+	mu.RLock()
+	mu.RUnlock()
+	mu.RUnlock()
+	<-done
+}
+
+// verifSelfRLockTwoReaders: two readers never block each other, with or without a writer that
+// comes and goes.
+func verifSelfRLockTwoReaders() {
+	var mu sync.RWMutex
+	var wg sync.WaitGroup
+	wg.Add(3)
+	for i := 0; i < 2; i++ {
+		go func() {
+			defer wg.Done()
+			mu.RLock()
+			verifYield()
+			mu.RUnlock()
+		}()
+	}
+	go func() {
+		defer wg.Done()
+		mu.Lock()
+		mu.Unlock()
+	}()
+	wg.Wait()
+}
